@@ -155,6 +155,7 @@ package action
 //@   requires i != nil && cfgReady(i.cfg) && chrt != nil && ledgerWF() && atMostOneDeployed(i.ReleaseName)
 //@   ensures [dry-run-no-cluster-mutation] old(installDryRun(i)) ==> Kmutated == old(Kmutated)
 //@   ensures [dry-run-no-storage-write] old(installDryRun(i)) ==> Dwritten == old(Dwritten)
+//@   ensures [C14] [schema-gate] !old(GschemaPassed)[chrt] && !old(Dwritten) && Dwritten ==> GschemaPassed[chrt] && GschemaSkip[chrt] == old(i.SkipSchemaValidation)
 
 //@ ghost func upgradeDryRun(u *Upgrade) bool = u.DryRun || u.DryRunOption == "client" || u.DryRunOption == "server" || u.DryRunOption == "true"
 
@@ -169,6 +170,7 @@ package action
 //@   ensures [prepare-no-cluster-mutation] Kmutated == old(Kmutated)
 //@   ensures [prepare-no-storage-write] Dwritten == old(Dwritten)
 //@   ensures [selectors-unchanged] upgradeDryRun(u) == old(upgradeDryRun(u))
+//@   ensures [C14] [schema-gate] !old(GschemaPassed)[chart] && result2 == nil ==> GschemaPassed[chart] && GschemaSkip[chart] == old(u.SkipSchemaValidation)
 //@   ensures [results] result2 == nil ==> result0 != nil && result1 != nil && result1.Info != nil
 
 //@ func (*Upgrade).performUpgrade
